@@ -11,6 +11,7 @@ PROPS = {
     "C05": {"level": "proof", "areas": CORE + ["GenWriter"], "theorems": ["C05_parse_iff_valid", "C05_from_str", "C05_decoded_valid"], "streams": ["nametext"]},
     "C18": {"level": "proof", "areas": ["GenConst", "GenNames"], "theorems": ["C18_eq_iff_cmp", "C18_eq_is_fold", "C18_cmp_is_lex", "C18_cmp_antisym", "C18_cmp_trans", "C18_hash", "C18_hash_is_fold"], "streams": ["nameord"]},
     "C11": {"level": "proof", "areas": CORE + ["GenWriter", "GenQuery", "GenHeader"], "theorems": ["C11_no_oob_write", "C11_refuse_invalid", "C11_name_encoder_sound", "C11_std_async_same", "C11_example"], "streams": ["wire"]},
+    "C02": {"level": "proof", "areas": DEC + ["GenHeader"], "theorems": ["C02_header_fields", "C02_flags", "C02_opt_fields", "C02_opt_do"], "streams": ["roundtrip"]},
     "C06": {"level": "exploration", "areas": DEC + ["GenHeader"], "theorems": [], "streams": ["rrset"]},
     "C07": {"level": "proof", "areas": DEC + ["GenHeader"], "theorems": ["C07_gates_sound", "C07_gate_errors", "C07_extended_rcode"], "streams": ["rrset", "decode"]},
     "C08": {"level": "proof", "areas": DEC, "theorems": ["C08_name_types_agree", "C08_read_implies_skip", "C08_random_access_view"], "streams": ["views"]},
@@ -25,6 +26,7 @@ PROPS = {
 }
 
 TEXT = {
+ "C02": {"text": "Coq theorems: the header is the six big-endian words for every message of >=12 octets; every flag/opcode/rcode accessor equals the RFC 1035 bit field for all 65536 words (vm_compute sweep lifted by forallb_forall, bound in the statement); OPT fields are the RFC 6891 split for every 32-bit TTL (bit-vector lemmas). The record-level round trip over all legal layouts (17 typed formats + OPT + unknown, three compression engines, reader and iterator) is decided by the roundtrip stream against the generated AST: stated as partial."},
  "C06": {"text": "RecordSet::from_msg is modelled in Gallina (RecordSet.v, tied by the decode/rrset streams) and compared on CNAME-graph responses (chains, forks, loops, dangling, case variations, decoys, all 17 types, all layouts) with a 20-line resolver over the generated AST written independently in the checker; loops are detected as HANG. No Coq theorem relates from_msg to the resolver yet, hence exploration level.", "technique": "differential testing against a code-blind resolver over generated ASTs; Gallina model tied by extraction"},
  "C07": {"text": "Coq theorems for ALL byte strings: a returned record set implies <=65535 octets, QR=1, TC=0, exactly one question, RCODE nibble 0 (and zero OPT extension inside the proof); each gate yields its specific error with the offending value in the documented order; the 12-bit code is base+16*ext (finite sweep). Stream: gate combinations x OPT positions against the AST oracle."},
  "C08": {"text": "Coq theorems for all byte strings: Name and InlineName decoding agree exactly (values, errors, payloads, resume); owned-name decoding succeeding implies skipping succeeds at the same resume byte; random access equals a pure function of (message, marker). The remaining view relations (bare marker / borrowed / owned headers, iterator vs reader, NameRef::eq vs comparison of decoded names, label iteration vs decoding of RDATA names) are decided by the views stream on the implementation alone: stated as partial."},
